@@ -381,6 +381,13 @@ class AsyncHTTP2Connection(AsyncConnectionInterface):
                     ):
                         if event.stream_id in self._events:
                             self._events[event.stream_id].append(event)
+                        elif isinstance(event, h2.events.DataReceived):
+                            # The stream has been closed on our side. Return the
+                            # flow control credit, or the connection window leaks.
+                            amount = event.flow_controlled_length
+                            self._h2_state.acknowledge_received_data(
+                                amount, event.stream_id
+                            )
 
                     elif isinstance(event, h2.events.ConnectionTerminated):
                         self._connection_terminated = event
@@ -406,6 +413,11 @@ class AsyncHTTP2Connection(AsyncConnectionInterface):
 
     async def _response_closed(self, stream_id: int) -> None:
         await self._max_streams_semaphore.release()
+        for event in self._events[stream_id]:
+            if isinstance(event, h2.events.DataReceived):
+                # Received but never read: return the flow control credit.
+                amount = event.flow_controlled_length
+                self._h2_state.acknowledge_received_data(amount, stream_id)
         del self._events[stream_id]
         async with self._state_lock:
             if self._connection_terminated and not self._events:
